@@ -172,14 +172,14 @@ func init() {
 	core.Register(&core.Prop{
 		ID:    "C10",
 		Level: "exploration",
-		Rule:  "for each of the seven formats a schema that addresses only the record's own data (fields, type casts, arrays over children, templates, copy, javascript, javascript_with_context on the record and on its children) and a record alphabet {two good records with different data and shapes, one failing by type cast, one by multiple xpath matches, one by a throwing script}: every record sequence up to length 3 (thorough 5); oracle out(seq)[i] == out([seq[i]])[0] for every position (bytes, checksum, failure class and text without positions), which implies the concatenation, permutation and replacement laws; distinct by (format, sequence)",
+		Rule:  "for each of the seven formats a schema that addresses only the record's own data (fields, type casts, arrays over children, templates, copy, javascript, javascript_with_context on the record and on its children) and a record alphabet {two good records with different data and shapes, one failing by type cast, one by multiple xpath matches, one by a throwing script}: every record sequence up to length 4 (thorough 6); oracle out(seq)[i] == out([seq[i]])[0] for every position (bytes, checksum, failure class and text without positions), which implies the concatenation, permutation and replacement laws; distinct by (format, sequence)",
 		Assumptions: []string{
 			"failure texts are compared after masking digits (line / segment numbers legitimately depend on the position)",
 		},
 		Run: func(c *core.Ctx) {
-			maxLen := 3
+			maxLen := 4
 			if !c.Quick() {
-				maxLen = 5
+				maxLen = 6
 			}
 			idx := 0
 			for _, f := range c10Formats() {
